@@ -427,3 +427,97 @@ MUTANTS += [
 		}""", note="ping goroutine outlives the connection"),
     M("c07-register-uses-config-nick", ["C07"], H, "	conn.Nick(conn.cfg.Me.Nick)\n	conn.User", "	conn.Nick(conn.Me().Nick)\n	conn.User", expect="control"),
 ]
+
+MUTANTS += [
+    # ---- C17
+    M("c17-433-adopts-unconditionally", ["C17"], H, """	if line.Args[1] == me.Nick {
+		if conn.st != nil {""", """	if line.Args[1] == me.Nick || line.Args[0] != "*" {
+		if conn.st != nil {""", note="a refused change after the welcome is adopted although the server did not confirm it"),
+    M("c17-hnick-compares-args0", ["C17"], H, "	if conn.st == nil && line.Nick == conn.cfg.Me.Nick {", "	if conn.st == nil && strings.EqualFold(line.Nick, conn.cfg.Me.Nick) {", note="another user whose nick differs only in case renames: client follows"),
+    M("c17-001-ignores-server-nick", ["C17"], H, "		conn.cfg.Me.Nick = nick\n		if ok {", "		if ok {"),
+    M("c17-defaultnewnick-mod-62", ["C17"], CONN, "		c = 'A' + (((c - 'A') + 1) % 61)", "		c = 'A' + (((c - 'A') + 1) % 62)", expect="control", note="'}' maps to '~' instead of wrapping: still a different nick of the same length, which is all the property states"),
+    M("c17-defaultnewnick-mod-60", ["C17"], CONN, "		c = 'A' + (((c - 'A') + 1) % 61)", "		c = 'A' + (((c - 'A') + 1) % 60)", note="'|' maps to 'A' and '}' to 'B'... wait: 60%60=0 -> '|'->'A'; '}'->61%60=1->'B': all differ; control", expect="control"),
+    M("c17-defaultnewnick-keeps-underscore", ["C17"], CONN, "	default:\n		c = '_'\n	}\n	return old[:len(old)-1] + string(c)", "	default:\n		c = '_'\n	}\n	if c > '}' {\n		return old\n	}\n	return old[:len(old)-1] + string(c)", expect="control"),
+    M("c17-defaultnewnick-digit-mod-9", ["C17"], CONN, "		c = '0' + (((c - '0') + 1) % 10)", "		c = '0' + (((c - '0') + 1) % 9)", note="'8' maps to '0'... and '9' to '1': still different; '8'->'0' fine", expect="control"),
+    M("c17-433-answers-current-nick", ["C17"], H, "	neu := conn.cfg.NewNick(line.Args[1])", "	neu := conn.cfg.NewNick(me.Nick)", note="derives the new nick from the current one instead of the refused one"),
+    M("c17-stnick-ignores-me", ["C17"], SH, "	conn.st.ReNick(line.Nick, line.Args[0])", "	if line.Nick != conn.cfg.Me.Nick {\n		conn.st.ReNick(line.Nick, line.Args[0])\n	}", note="tracked client ignores its own confirmed nick change when cfg.Me is current"),
+    M("c17-revert-D9", ["C17"], H, "", "", expect="skip"),
+    # ---- C13 / C05
+    M("c13-part-ignores-nick", ["C13"], SH, "	conn.st.Dissociate(line.Args[0], line.Nick)", "	conn.st.Dissociate(line.Args[0], conn.Me().Nick)"),
+    M("c13-kick-uses-line-nick", ["C13"], SH, "	conn.st.Dissociate(line.Args[0], line.Args[1])", "	conn.st.Dissociate(line.Args[0], line.Nick)"),
+    M("c13-quit-noop", ["C13"], SH, "	conn.st.DelNick(line.Nick)", "	_ = line.Nick"),
+    M("c13-353-at-maps-to-voice", ["C13"], SH, """				case '@':
+					conn.st.ChannelModes(ch.Name, "+o", nick)""", """				case '@':
+					conn.st.ChannelModes(ch.Name, "+v", nick)"""),
+    M("c13-353-no-prefix-strip-halfop", ["C13"], SH, "				case '~', '&', '@', '%', '+':\n					nick = nick[1:]", "				case '~', '&', '@', '+':\n					nick = nick[1:]"),
+    M("c13-join-creates-for-others", ["C13"], SH, """			if !conn.Me().Equals(nk) {
+				logging.Warn("irc.JOIN(): JOIN to unknown channel %s received "+
+					"from (non-me) nick %s", line.Args[0], line.Nick)
+				return
+			}""", """			if !conn.Me().Equals(nk) && nk == nil {
+				logging.Warn("irc.JOIN(): JOIN to unknown channel %s received "+
+					"from (non-me) nick %s", line.Args[0], line.Nick)
+				return
+			}""", note="a tracked user joining an untracked channel creates it", expect="control"),
+    M("c13-stnick-swapped", ["C13"], SH, "	conn.st.ReNick(line.Nick, line.Args[0])", "	conn.st.ReNick(line.Args[0], line.Nick)"),
+    M("c13-324-args0", ["C13"], SH, "		conn.st.ChannelModes(line.Args[1], line.Args[2], line.Args[3:]...)", "		conn.st.ChannelModes(line.Args[1], line.Args[2], line.Args[4:]...)"),
+    M("c13-topic-on-332-only", ["C13"], SH, "		conn.st.Topic(line.Args[0], line.Args[1])", "		conn.st.Topic(line.Args[0], line.Args[len(line.Args)-1][:0]+line.Args[1])", expect="control"),
+    M("c13-352-name-with-hops", ["C13"], SH, "	conn.st.NickInfo(nk.Nick, line.Args[2], line.Args[3], a[1])", "	conn.st.NickInfo(nk.Nick, line.Args[2], line.Args[3], line.Args[len(line.Args)-1])"),
+    M("c13-mode-args-shifted", ["C13"], SH, "		conn.st.ChannelModes(line.Args[0], line.Args[1], line.Args[2:]...)", "		conn.st.ChannelModes(line.Args[0], line.Args[1], line.Args[1:]...)"),
+    M("c05-swap-int-fg", ["C05"], DISP, """	conn.intHandlers.dispatch(conn, line)
+	go conn.bgHandlers.dispatch(conn, line)
+	conn.fgHandlers.dispatch(conn, line)""", """	go conn.bgHandlers.dispatch(conn, line)
+	conn.fgHandlers.dispatch(conn, line)
+	conn.intHandlers.dispatch(conn, line)"""),
+    M("c05-int-async", ["C05"], DISP, "	conn.intHandlers.dispatch(conn, line)\n	go conn.bgHandlers", "	go conn.intHandlers.dispatch(conn, line)\n	go conn.bgHandlers"),
+    M("c05-state-handlers-in-fg", ["C05"], SH, "		conn.stRemovers = append(conn.stRemovers, conn.handle(n, h))", "		conn.stRemovers = append(conn.stRemovers, conn.Handle(n, h))"),
+    M("c05-bg-before-int", ["C05"], DISP, """	conn.intHandlers.dispatch(conn, line)
+	go conn.bgHandlers.dispatch(conn, line)""", """	go conn.bgHandlers.dispatch(conn, line)
+	conn.intHandlers.dispatch(conn, line)"""),
+]
+MUTANTS = [m for m in MUTANTS if m.get("expect") != "skip"]
+
+MUTANTS += [
+    # ---- C19
+    M("c19-intersect-wrong-side", ["C19"], H, """	for cap := range c.caps {
+		if !other.Has(cap) {
+			delete(c.caps, cap)
+		}
+	}""", """	for cap := range other.caps {
+		if !c.Has(cap) {
+			delete(c.caps, cap)
+		}
+	}"""),
+    M("c19-add-ignores-minus", ["C19"], H, """		if strings.HasPrefix(cap, "-") {
+			c.caps[cap[1:]] = false
+		} else {""", """		if strings.HasPrefix(cap, "-") {
+			c.caps[cap] = false
+		} else {"""),
+    M("c19-904-no-end", ["C19"], H, """	logging.Warn("SASL authentication failed")
+	conn.Cap(CAP_END)""", """	logging.Warn("SASL authentication failed")"""),
+    M("c19-gotsasl-sticky", ["C19"], H, "	gotSasl := false\n	for _, cap := range caps {", "	gotSasl := conn.saslRemainingData != nil\n	for _, cap := range caps {", expect="control"),
+    M("c19-request-all-wanted", ["C19"], H, "	reqCaps.Intersect(conn.supportedCaps)\n", "	if reqCaps.Size() > 3 {\n		reqCaps.Intersect(conn.supportedCaps)\n	}\n", note="small wanted sets are requested whole"),
+    M("c19-authenticate-without-ack", ["C19"], H, """	if conn.saslRemainingData != nil {
+		data := "+" // plus sign representing empty data""", """	if conn.saslRemainingData == nil && len(line.Args) > 0 && line.Args[0] == "+" {
+		if _, ir, err := conn.cfg.Sasl.Start(); err == nil {
+			conn.saslRemainingData = ir
+		}
+	}
+	if conn.saslRemainingData != nil {
+		data := "+" // plus sign representing empty data""", note="answers a stray AUTHENTICATE + with credentials before sasl was acknowledged"),
+    M("c19-splitargs-drops-boundary", ["C19"], CMD, """		for i < len(args) && len(currArg)+len(args[i])+1 < maxLen {
+			currArg += " " + args[i]
+			i++
+		}
+		res = append(res, currArg)""", """		for i < len(args) && len(currArg)+len(args[i])+1 < maxLen {
+			currArg += " " + args[i]
+			i++
+		}
+		if i < len(args) && len(currArg)+len(args[i])+1 == maxLen {
+			i++
+		}
+		res = append(res, currArg)""", note="a capability that would exactly fill the line is dropped"),
+    M("c19-nak-no-end", ["C19"], H, "func (conn *Conn) handleCapNak(caps []string) {\n	conn.Cap(CAP_END)", "func (conn *Conn) handleCapNak(caps []string) {\n	if len(caps) > 1 {\n		conn.Cap(CAP_END)\n	}", note="a NAK of a single capability leaves negotiation open"),
+    M("c19-has-reports-supported", ["C19"], CONN, "	return conn.currCaps.Has(cap)", "	return conn.currCaps.Has(cap) || conn.supportedCaps.Has(cap) && conn.currCaps.Size() > 2"),
+    M("c19-plain-empty-plus", ["C19"], H, "		if len(conn.saslRemainingData) > 0 {", "		if len(conn.saslRemainingData) > 2 {", note="a two-byte PLAIN response (empty user and password) is sent as '+'"),
+]
